@@ -398,6 +398,36 @@ func eofexitC04(c *Ctx, tt *tokenTable) {
 				continue
 			}
 			if r.execE[[2]int{e.from.Index, e.to.Index}] {
+				// the back edge is taken, but the header's own test, with the loop
+				// variables as that edge delivers them, leaves the loop
+				if ifi, ok := e.to.Instrs[len(e.to.Instrs)-1].(*ssa.If); ok {
+					predIdx := -1
+					for i, pb := range e.to.Preds {
+						if pb == e.from {
+							predIdx = i
+						}
+					}
+					cond := ifi.Cond
+					neg := false
+					if u, ok := cond.(*ssa.UnOp); ok && u.Op == token.NOT {
+						cond, neg = u.X, true
+					}
+					if phi, ok := cond.(*ssa.Phi); ok && phi.Block() == e.to && predIdx >= 0 {
+						if bv, isB := isBoolConst(r.get(phi.Edges[predIdx])); isB {
+							if neg {
+								bv = !bv
+							}
+							next := e.to.Succs[1]
+							if bv {
+								next = e.to.Succs[0]
+							}
+							if !body[next.Index] {
+								c.OK("C04.eofexit", key, e.to.Instrs[0].Pos(), "at end of input the latch hands the loop test a value with which it leaves the loop")
+								continue
+							}
+						}
+					}
+				}
 				c.Bad("C04.eofexit", key, e.from.Instrs[len(e.from.Instrs)-1].Pos(), "with every read reporting end of input the loop can still take its back edge: it spins forever on truncated input")
 			} else {
 				c.OK("C04.eofexit", key, e.to.Instrs[0].Pos(), "back edge is dead at end of input")
